@@ -115,7 +115,7 @@ def pwl_case(item, ctx=None):
   msgs = []
   if out.shape != ref.shape:
     return "output shape %s, expected %s" % (out.shape, ref.shape)
-  if err.max() > TOL:
+  if not (err.max() <= TOL):
     r, u = np.unravel_index(err.argmax(), err.shape)
     msgs.append("unit %d input %s: layer %.6g, reference %.6g (kernel column %s)" %
                 (u, X[r].tolist(), out[r, u], ref[r, u], K[:, u].tolist()))
@@ -124,10 +124,10 @@ def pwl_case(item, ctx=None):
   kout = np.asarray(layer.keypoints_outputs(), dtype=np.float64)
   want_in = np.repeat(np.array(kp)[:, None], units, axis=1)
   want_out = rp.keypoint_outputs(K, cyclic)
-  if kin.shape != want_in.shape or np.abs(kin - want_in).max() > TOL:
+  if kin.shape != want_in.shape or not (np.abs(kin - want_in).max() <= TOL):
     msgs.append("keypoints_inputs() = %s, expected %s" % (kin[:, 0].tolist(), kp))
-  if kout.shape != want_out.shape or (
-      np.abs(kout - want_out) / np.maximum(1, np.abs(want_out))).max() > TOL:
+  if kout.shape != want_out.shape or not (
+      (np.abs(kout - want_out) / np.maximum(1, np.abs(want_out))).max() <= TOL):
     msgs.append("keypoints_outputs() differ from cumulative kernel sums")
   else:
     # layer evaluated at its reported keypoints gives the reported outputs
@@ -135,7 +135,7 @@ def pwl_case(item, ctx=None):
       Xk = kin if layout == "perunit" else kin[:, :1]
       ok = _call(layer, Xk, None if missing == "none" else np.zeros(Xk.shape, np.float32))
       e2 = np.abs(ok - kout) / np.maximum(1, np.abs(kout))
-      if e2.max() > TOL:
+      if not (e2.max() <= TOL):
         msgs.append("layer(keypoints_inputs()) != keypoints_outputs() (max err %.4g)" % e2.max())
   return "; ".join(msgs) or None
 
@@ -161,7 +161,7 @@ def learned_case(item, ctx=None):
     kin = np.asarray(layer.keypoints_inputs(), dtype=np.float64)  # (n, units)
     for u in range(units):
       kpu = rp.learned_keypoints(kp, L[u])
-      if np.abs(kin[:, u] - kpu).max() > 1e-4 * max(1, abs(kp[-1] - kp[0])):
+      if not (np.abs(kin[:, u] - kpu).max() <= 1e-4 * max(1, abs(kp[-1] - kp[0]))):
         msgs.append("logits %s: keypoints_inputs %s, expected %s" %
                     (L[u].tolist(), kin[:, u].tolist(), kpu.tolist()))
       if not (np.all(np.diff(kin[:, u]) > 0) and abs(kin[0, u] - kp[0]) < 1e-5 and
@@ -173,7 +173,7 @@ def learned_case(item, ctx=None):
       far = np.min(np.abs(xs[:, None] - kpu[None, :]), axis=1) > 1e-3
       e = np.abs(out[:, u] - ref)[far] / np.maximum(1, np.abs(ref[far]))
       cnt += int(far.sum())
-      if e.size and e.max() > 5e-4:
+      if e.size and not (e.max() <= 5e-4):
         msgs.append("logits %s unit %d: output differs from interpolation through the "
                     "learned keypoints by %.4g" % (L[u].tolist(), u, e.max()))
     if msgs:
@@ -238,7 +238,7 @@ def cat_case(item, ctx=None):
       msgs.append("output shape %s expected %s" % (out.shape, ref.shape))
       break
     e = np.abs(out - ref)
-    if e.max() > 1e-5:
+    if not (e.max() <= 1e-5):
       r, u = np.unravel_index(e.argmax(), e.shape)
       msgs.append("category row %s unit %d -> %.6g, expected kernel row value %.6g" %
                   (X[r].tolist(), u, out[r, u], ref[r, u]))
